@@ -1040,6 +1040,12 @@ func (h *sstHist) onResult(rs sstRes) {
 			h.res.Fail("Write succeeded although "+st.pendFail, "stream %d: %d bytes at %d", st.id, n, st.submitted)
 			return
 		}
+		if st.shutdown && n > 0 {
+			// (C17) the call was blocked when the connection was shut down: it has to return the connection's error, not
+			// success for bytes that can never be sent
+			h.res.Fail("Write that was blocked when the connection was shut down returned success instead of the connection's error", "stream %d: %d bytes at %d", st.id, n, st.submitted)
+			return
+		}
 		h.res.Probe("write-ok")
 		if st.resetFirst != "" && n > 0 {
 			// the call was in progress when the stream was reset: it may report success (the data is discarded)
